@@ -202,6 +202,11 @@ func TestC14_WatchFaults(t *testing.T) {
 				}
 				w.api.mu.Lock()
 				w.api.connErrs = ce
+				if ce > 0 {
+					fl := rapid.SampledFrom(watchErrFlavours).Draw(t, "connectErrorFlavour")
+					w.api.connErr = fl.err
+					kinds["connect-error("+fl.name+")"] = true
+				}
 				w.api.plans = []sessPlan{mkPlan()}
 				if kind == "nilobject" {
 					for _, s := range w.api.sessions {
